@@ -179,7 +179,58 @@ var (
 	seqTextColliders = findColliders("x^", "^", 4)   // whole rule texts that land in the sequential table
 )
 
+// zeroHashNames are host/domain names whose FastHash is 0, the value the hash
+// function also returns for the empty string (meet in the middle over the
+// djb2-xor recurrence h' = h*33 ^ b; every result is verified with FastHash).
+var zeroHashNames = findZeroHashNames(".com", 4)
+
+func findZeroHashNames(suffix string, want int) []string {
+	const letters = "abcdefghijklmnopqrstuvwxyz"
+	const inv33 = uint32(1041204193) // 33 * inv33 == 1 (mod 2^32)
+	back := func(h uint32, tail string) uint32 {
+		for i := len(tail) - 1; i >= 0; i-- {
+			h = (h ^ uint32(tail[i])) * inv33
+		}
+		return h
+	}
+	need := map[uint32]string{}
+	var t [4]byte
+	for _, a := range letters {
+		for _, b := range letters {
+			for _, c := range letters {
+				for _, d := range letters {
+					t = [4]byte{byte(a), byte(b), byte(c), byte(d)}
+					tail := string(t[:]) + suffix
+					need[back(0, tail)] = tail
+				}
+			}
+		}
+	}
+	var out []string
+	for _, a := range letters {
+		for _, b := range letters {
+			for _, c := range letters {
+				for _, d := range letters {
+					head := string([]byte{byte(a), byte(b), byte(c), byte(d)})
+					if tail, ok := need[filterutil.FastHash(head)]; ok {
+						if name := head + tail; filterutil.FastHash(name) == 0 {
+							out = append(out, name)
+							if len(out) >= want {
+								return out
+							}
+						}
+					}
+				}
+			}
+		}
+	}
+	return out
+}
+
 func init() {
+	if len(zeroHashNames) == 0 {
+		panic("no name with FastHash 0 found")
+	}
 	if len(windowColliders) == 0 || len(hostColliders) == 0 {
 		panic(fmt.Sprintf("no FastHash colliders found: %d %d", len(windowColliders), len(hostColliders)))
 	}
